@@ -794,13 +794,15 @@ func (tk *tokenizer) consumeValueList(endChar byte) []Token {
 		default:
 			if bytes.HasPrefix(tk.src[tk.pos:], []byte("/*")) { // Comment
 				index := bytes.Index(tk.src[tk.pos+2:], []byte("*/"))
-				tk.pos += 2 + index
 				if index == -1 {
+					// unterminated comment: consume up to the end of the input
+					tk.pos = L
 					if !tk.skipComments {
 						out = append(out, Comment{stringVal{pos: tokenPos, Value: string(tk.src[tk.previousPos+2:])}})
 					}
 					return out
 				}
+				tk.pos += 2 + index
 				if !tk.skipComments {
 					out = append(out, Comment{stringVal{pos: tokenPos, Value: string(tk.src[tk.previousPos+2 : tk.pos])}})
 				}
